@@ -1,6 +1,7 @@
 import Spine.Heartbeat
 import Spine.HBCounter
 import Spine.Period
+import Spine.HBPace
 import Spine.Generated.Heartbeat
 /-!
 # C16 — facts regenerated from spine/heartbeat_manager.go on every run (tie b1)
@@ -67,5 +68,23 @@ theorem c16_period_le_timeout_source (t : Nat) (ht : 0 < t) :
   split <;> omega
 
 example : HB.period 2300 = 300 ∧ Generated.Heartbeat.thresholdMs = 2000 := by decide
+
+/-- what paces the loop of the tree under test is NOT a timer armed anew in every iteration (`time.After` in the
+    select, a timer / ticker created or reset inside the loop): the translator found no such construction on the path
+    from a `time.*` constructor to the channel the refresh case receives from -/
+theorem c16_not_paced_per_iteration_source :
+    HBP.paceOf Generated.Heartbeat.pacing ≠ some .perIteration := by decide
+
+/-- hence, for the pacing read off the source (when recognised): consecutive refreshes begin exactly one period apart
+    — at most the announced timeout — however long a refresh takes (up to a period) -/
+theorem c16_refresh_gap_le_timeout_source (p : HBP.Pace) (hp : HBP.paceOf Generated.Heartbeat.pacing = some p)
+    (t : Nat) (ht : 0 < t) (r : Nat → Nat) (hr : ∀ k, r k ≤ HB.period t) (k : Nat) :
+    HBP.begins p (HB.period t) r (k + 1) - HBP.begins p (HB.period t) r k ≤ t := by
+  cases p with
+  | ticker => exact (HBP.gap_le_timeout t ht r hr k).2
+  | perIteration => exact absurd hp c16_not_paced_per_iteration_source
+
+example : HBP.begins .ticker (HB.period 1000) (fun _ => 150) 2 - HBP.begins .ticker (HB.period 1000) (fun _ => 150) 1 = 1000 := by
+  decide
 
 end Spine.Props.C16Gen
